@@ -85,6 +85,6 @@ Definition ex_pd : pd :=
 Example ex_pd_ok : pd_wf ex_pd = true /\ pd_has_empty_values ex_pd = false.
 Proof. split; [vm_compute; reflexivity|vm_compute; reflexivity]. Qed.
 
-Example ex_serde : sval_ok SInt (VNum (- two64Z)) = true /\ sval_ok (SHash 28) (VBytes (List.repeat 7 28%nat)) = true /\
+Example ex_serde : sval_ok SInt (SVNum (- two64Z)) = true /\ sval_ok (SHash 28) (SVBytes (List.repeat 7 28%nat)) = true /\
                    sf_canonical SBigNum (JStr (t "18446744073709551615")) = true /\ sf_canonical SAssetName (JStr (t "00ff")) = true.
 Proof. repeat split; vm_compute; reflexivity. Qed.
